@@ -55,11 +55,15 @@ PlaceDir(ref, dir, gap, w, h) ==
       [] dir = "v" -> B(Cx(ref) - Half(w), ref.y2 + gap, Cx(ref) - Half(w) + w, ref.y2 + gap + h)
       [] dir = "V" -> B(Cx(ref) - Half(w), ref.y1 - gap - h, Cx(ref) - Half(w) + w, ref.y1 - gap)
 
-ScalarNames == {"x", "x1", "x2", "cx", "y", "y1", "y2", "cy", "w", "h"}
+\* the eleven scalar kinds of the layout reference (x / x1, y / y1, w / width, h / height are two spellings of one kind):
+\* four edges, two centres, two sizes, the two half-sizes rx / ry and r, by convention the larger of the two
+ScalarNames == {"x", "x1", "x2", "cx", "y", "y1", "y2", "cy", "w", "h", "width", "height", "rx", "ry", "r"}
 Scalar(b, s) ==
     CASE s \in {"x", "x1"} -> b.x1 [] s = "x2" -> b.x2 [] s = "cx" -> Cx(b)
       [] s \in {"y", "y1"} -> b.y1 [] s = "y2" -> b.y2 [] s = "cy" -> Cy(b)
-      [] s = "w" -> W(b) [] s = "h" -> H(b)
+      [] s \in {"w", "width"} -> W(b) [] s \in {"h", "height"} -> H(b)
+      [] s = "rx" -> Half(W(b)) [] s = "ry" -> Half(H(b))
+      [] s = "r" -> Max(Half(W(b)), Half(H(b)))
 
 (***************************************************************************)
 (* C11: per-axis constraint solving                                        *)
@@ -281,6 +285,12 @@ RelIdentities ==
               EdgeLoc(c.ref, c.edge, "pct", 100) = Loc(c.ref, IF c.edge \in {"b", "r"} THEN "br" ELSE IF c.edge = "t" THEN "tr" ELSE "bl")
         \* an absolute offset of 0 is the start of the edge, like 0%
         /\ c.form = "edge" /\ c.okind = "abs" /\ c.off = 0 => EdgeLoc(c.ref, c.edge, "abs", 0) = EdgeLoc(c.ref, c.edge, "pct", 0)
+        \* scalar kinds are consistent with one another: centre = edge + half-size, size = far edge - near edge, r covers both half-sizes
+        /\ c.form = "scalar" =>
+              /\ Scalar(c.ref, "cx") = Scalar(c.ref, "x") + Scalar(c.ref, "rx") /\ Scalar(c.ref, "cy") = Scalar(c.ref, "y") + Scalar(c.ref, "ry")
+              /\ Scalar(c.ref, "width") = Scalar(c.ref, "x2") - Scalar(c.ref, "x1") /\ Scalar(c.ref, "height") = Scalar(c.ref, "y2") - Scalar(c.ref, "y1")
+              /\ 2 * Scalar(c.ref, "rx") = Scalar(c.ref, "w") /\ 2 * Scalar(c.ref, "ry") = Scalar(c.ref, "h")
+              /\ Scalar(c.ref, "r") >= Scalar(c.ref, "rx") /\ Scalar(c.ref, "r") >= Scalar(c.ref, "ry") /\ Scalar(c.ref, "r") \in {Scalar(c.ref, "rx"), Scalar(c.ref, "ry")}
         /\ c.form = "loc" => Loc(PlaceAt(Loc(c.ref, c.loc), c.anchor, c.w, c.h), c.anchor) = Loc(c.ref, c.loc)
         /\ c.form = "delta" => Loc(c.exp, c.anchor) = <<40, 24>>
         /\ c.form = "dir" /\ c.dir \in {"h", "H"} => Cy(c.exp) = Cy(c.ref) /\ H(c.exp) = c.h /\ W(c.exp) = c.w
